@@ -27,7 +27,7 @@ CHECKS["C04"] = dict(
     engine="E1-config-lattice",
     technique="full product of evaluator lists x spin modes x nspin x baselines x rhocut, Richardson differentiation of the real evaluators w.r.t. every input",
     text="The full product of evaluator lists (Python kernel, C squared-exponential kernels incl. constant-scaled, antisymmetric and spin variants, spline sets, linear, lists of several accumulating into shared buffers) x SEP/NPOL/POL x nspin x every native baseline code (multiplicative and additive, incl. the default None) x rhocut, and the libxc-backed variant with every code of the libxc tables (incl. SS_/OS_ splits), is evaluated on a 162-point lattice; dres (and vrho/vsigma/vtau for MappedXC2) is compared with Richardson-extrapolated derivatives of res with respect to every (spin, feature) input. Evaluator-level states check buffer accumulation, batch independence around the internal chunk size 2000, and the evaluator's own gradient.",
-    note="Lattice stays inside the admissible feature domain, away from kinks and cutoff thresholds; NNEvaluator excluded (no torch). Quick tier = full products of two sub-lattices; thorough = the full product.",
+    note="Every model is also called with the same values in other memory layouts (samples-major storage viewed feature-major, every second column of a wider array, strided density-tuple entries): same result or a rejection. Lattice stays inside the admissible feature domain, away from kinks and cutoff thresholds; NNEvaluator excluded (no torch). Quick tier = full products of two sub-lattices; thorough = the full product.",
     design="5/C04",
 )
 CHECKS["C07"] = dict(
@@ -64,7 +64,7 @@ CHECKS["C19"] = dict(
     engine="E2-history-bfs",
     technique="explicit-state BFS over build/prune/reset/reconfigure histories of the real CiderGrids object, canonical state = settings + grid hash, invariants in every state",
     text="For each molecule (repeated and unique elements, an element re-occurring after another one, a third-period element) and lmax in {4, 6, 10, 12}, histories of build(sort, non0tab), repeated prune_by_density_ at several thresholds, reset and setting changes (level, sizes, per-element sizes, pruning scheme, alignment) are explored breadth first to depth 3 on one real CiderGrids object while the same history is applied to a pyscf Grids reference; in every distinct state the point/weight multisets must be bitwise equal, the index map injective and consistent with weights, owning atoms, radial shells and direction tables, padding weights zero, tables monotone/consistent, and the per-shell real spherical harmonics orthonormal under the shell quadrature up to the supported degree and zero above.",
-    note="Default radial scheme/Becke partition; full_lmax passed explicitly.",
+    note="Molecules include an element re-occurring after another, a third-period element and labelled atoms (H1, H@2). Default radial scheme/Becke partition; full_lmax passed explicitly.",
     design="5/C19",
 )
 CHECKS["C20"] = dict(
@@ -110,7 +110,7 @@ CHECKS["C13"] = dict(
     engine="E1-config-lattice",
     technique="enumeration of settings classes x spec/parameter/rho_mult/level alphabets x density values against independent quadrature of the documented definitions",
     text="For every NLDF spec of versions j, i, ij, k (incl. erf_rinv and the vector dots), both semilocal levels, both rho_mult options and two parameter sets, every SDMX settings class, fractional-Laplacian settings (exponents at and on both sides of every special value of the closed form, every feature group present/absent; Fermi-sphere quadrature of the documented operators incl. the F^dd dot features, isotropy for the vector contractions) and every semilocal mode, the reported uniform-gas value at five densities is compared with an independent evaluation of the documented definition (1-D radial quadrature of the kernels of docs/features/nldf.rst with my own transcription of the exponent formula; nested Gauss-Legendre quadrature of the documented SDMX integrals for the uniform-gas density matrix; the real semilocal plan on constant arrays); the values must also obey their declared scaling powers; FeatureSettings.ueg_vector(with_normalizers=True) must equal the raw vector pushed through the real normaliser list, and the list's reported factors must equal what the forward pass applies, for every normaliser class and semilocal mode.",
-    note="Density alphabet {0.01,0.3,1,7,100}; SDMX constants compared at 2e-4 (tabulated constants are accurate to 4e-5 for j=2).",
+    note="SDMXFull (no closed form): analytic projections of the uniform-gas density matrix pushed through the real plan's fit matrices on a dense ladder; ratios inserted in unsorted order. Density alphabet {0.01,0.3,1,7,100}; SDMX constants compared at 2e-4 (tabulated constants are accurate to 4e-5 for j=2).",
     design="5/C13",
 )
 
